@@ -39,6 +39,10 @@ fn corpus() -> Vec<CorpusDoc> {
     add("gen:ledger.wsdl", verif.join("corpus/ledger/ledger.wsdl"));
     // single emitted items larger than 8 KiB / 64 KiB (buffer thresholds): a 2600-value enumeration, a 900-field type,
     // 100 KB documentation texts
+    // inputs that convert to nothing (header and helpers only): early-return paths of the writer
+    add("gen:degenerate/empty.xsd", verif.join("corpus/degenerate/empty.xsd"));
+    add("gen:degenerate/wellknown-only.xsd", verif.join("corpus/degenerate/wellknown-only.xsd"));
+    add("gen:degenerate/notschema.xml", verif.join("corpus/degenerate/notschema.xml"));
     add("gen:big-enum.xsd", verif.join("corpus/big/big-enum.xsd"));
     add("gen:big-type.xsd", verif.join("corpus/big/big-type.xsd"));
     for (n, p) in [
@@ -783,7 +787,7 @@ fn build_items(ctx: &Ctx, tier: &str, seed: u64) -> (Vec<Item>, Value) {
     // the three smallest documents get every error kind at every call index
     let mut order: Vec<usize> = (0..ctx.docs.len()).filter(|d| ctx.dims[*d].0 > 0).collect();
     order.sort_by_key(|d| ctx.dims[*d].0);
-    let smallest: BTreeSet<usize> = order.iter().take(3).copied().collect();
+    let smallest: BTreeSet<usize> = order.iter().take(6).copied().collect();
     let rep_errs = [0u64, 3, 13, 16]; // Other, StorageFull, ENOSPC, EPIPE
     for &d in &order {
         let (n, nb) = ctx.dims[d];
